@@ -702,6 +702,54 @@ var (
 	badReKs = []string{"/[/", "/(/"}
 )
 
+// the larger universe of the bulk scripts: one update reconfigures k, removes r and adds a interfaces at once
+var hostsBig = []string{"br0", "eth0", "eth1", "eth2", "eth3", "lo", "tun0", "wlan0", "wlan1", "wlan2"}
+
+// bulkScript: start `run` interfaces with ccA (in the order given by perm), some traffic, then ONE update that
+// changes the parameters of k of them, drops r of them and adds a new ones; optionally a third update
+func bulkScript(perm []string, run, k, r, a int, newCC ccIn, tail bool) []evIn {
+	if run > len(perm) {
+		run = len(perm)
+	}
+	if k+r > run {
+		r = run - k
+		if r < 0 {
+			k, r = run, 0
+		}
+	}
+	if run+a > len(perm) {
+		a = len(perm) - run
+	}
+	var first, second []entIn
+	for i := 0; i < run; i++ {
+		first = append(first, e(perm[i], ccA))
+	}
+	for i := 0; i < k; i++ {
+		second = append(second, e(perm[i], newCC))
+	}
+	for i := k + r; i < run; i++ {
+		second = append(second, e(perm[i], ccA))
+	}
+	for i := run; i < run+a; i++ {
+		second = append(second, e(perm[i], ccA))
+	}
+	evs := []evIn{upd(hostsBig, first...)}
+	for i := 0; i < run; i++ {
+		evs = append(evs, pkt(perm[i], i%4))
+	}
+	if len(second) == 0 {
+		second = []entIn{e(perm[len(perm)-1], ccA)}
+	}
+	evs = append(evs, upd(hostsBig, second...))
+	for i := 0; i < run+a && i < len(perm); i += 2 {
+		evs = append(evs, pkt(perm[i], 1+i%3))
+	}
+	if tail {
+		evs = append(evs, upd(hostsBig, first...))
+	}
+	return evs
+}
+
 func upd(links []string, ifs ...entIn) evIn { return evIn{T: "upd", Links: links, Ifs: ifs} }
 func e(k string, c ccIn) entIn              { return entIn{K: k, C: c} }
 func pkt(i string, p int) evIn              { return evIn{T: "pkt", I: i, P: p} }
@@ -738,6 +786,17 @@ func fixedCases() [][]evIn {
 		{upd([]string{"eth0"}, e("eth0", ccA), e("eth9", ccA)), pkt("eth9", 1), upd([]string{"eth0"}, e("eth0", ccA), e("eth9", ccA), e("/x/", ccA)), upd(nil, e("/e/", ccA))},
 		// the link list changes under an unchanged configuration
 		{upd([]string{"eth0"}, e("/eth/", ccA)), pkt("eth0", 1), upd([]string{"eth0", "eth1"}, e("/eth/", ccA)), pkt("eth1", 2), upd([]string{"eth1", "eth1"}, e("/eth/", ccA))},
+		// one update that reconfigures k, removes r and adds a interfaces (k = 3 and 5..7: the change lists are
+		// appended to slices with spare capacity)
+		bulkScript(hostsBig, 4, 3, 1, 1, ccVlan, false),
+		bulkScript(hostsBig, 5, 3, 2, 2, ccBpf1, true),
+		bulkScript(hostsBig, 6, 5, 1, 1, ccProm, false),
+		bulkScript(hostsBig, 8, 6, 2, 2, ccRing2, false),
+		bulkScript(hostsBig, 8, 7, 1, 1, ccVlan, true),
+		bulkScript(hostsBig, 3, 1, 1, 1, ccVlan, false),
+		bulkScript(hostsBig, 4, 2, 2, 2, ccBpf2, false),
+		bulkScript(hostsBig, 7, 0, 2, 2, ccVlan, true),
+		bulkScript(hostsBig, 9, 4, 1, 1, ccProm, false),
 	}
 }
 
@@ -840,6 +899,19 @@ func gen(r *vhlib.Rand, i int, o vhlib.Opts) any {
 	fixed := fixedCases()
 	if i < len(fixed) {
 		return input{Evs: fixed[i], Reps: reps}
+	}
+	if r.Chance(25) {
+		perm := append([]string(nil), hostsBig...)
+		for j := len(perm) - 1; j > 0; j-- {
+			k := r.Intn(j + 1)
+			perm[j], perm[k] = perm[k], perm[j]
+		}
+		run := 2 + r.Intn(8)
+		k := r.Intn(8)
+		if k > run {
+			k = run
+		}
+		return input{Evs: bulkScript(perm, run, k, r.Intn(3), r.Intn(3), vhlib.Pick(r, []ccIn{ccVlan, ccProm, ccBpf1, ccRing2}), r.Chance(40)), Reps: reps}
 	}
 	var evs []evIn
 	nupd := 1 + r.Intn(5)
